@@ -98,7 +98,7 @@ def describe(tier):
             f"{len(ENC)} encoders {[e.name for e in ENC]}, each with its documented domain, an own encoder and the expected (type, label). "
             f"ALL stacks of height 1..{HEIGHT[tier]} x {len(PAYLOADS)} payloads (URL+exe, IP, e-mail+domain, Windows path, 600-byte padded text) x {len(EMBED)} embeddings x depth "
             f"limits {{height, height+1, 10}} (and limit 1 followed by an in-place scan_node(tree) and a second flatten(), which must equal the flatten() of a copy of the expanded tree), ALL stacks of height {H_PARTIAL[tier]} x 2 payloads x 2 embeddings at depth 10, every single encoder repeated 1..11 times, and every encoder around payloads of 1 kB .. 16 kB (thorough .. 70 kB, crossing 65536) with the indicators at the end "
-            "(depth limit 10 bites at layer 11). Isolation histories: for EVERY entry i of the default registry (and list operations clear/reverse/del/append/insert/slice-assign) another default scanner's public `decoders` list is customised in place, then a brand-new default Multidecoder() must peel every height-1 stack and 3 height-2 stacks. Stacks whose intermediate text leaves the next encoder's domain, and embeddings that are not neutral for the "
+            "(depth limit 10 bites at layer 11). After-failure histories: every stack of height 1..2 is scanned once on a scanner whose extra user decoder raises (RuntimeError / KeyboardInterrupt) on the innermost plaintext, the caller catches it, and the same scanner must then peel the same document completely. Isolation histories: for EVERY entry i of the default registry (and list operations clear/reverse/del/append/insert/slice-assign) another default scanner's public `decoders` list is customised in place, then a brand-new default Multidecoder() must peel every height-1 stack and 3 height-2 stacks. Stacks whose intermediate text leaves the next encoder's domain, and embeddings that are not neutral for the "
             "outermost encoder (bare base64/hex next to LF-joined words; cmd with trailing text), are pruned and counted. Oracle = the stack itself: a chain "
             "of nested nodes, outermost first, node i has value = plaintext i and the type/label of layer i, the outermost covers exactly the blob; "
             "with depth >= height+1 every indicator found by scanning the plaintext payload alone is found beneath the innermost node; flatten() of the "
@@ -119,6 +119,7 @@ def plan(tier, seed):
     units += [("repeat", e.name) for e in ENC if e.name not in ("psbytes",)]
     units += [("sizes", tier, e.name) for e in ENC]
     units += [("isolation", i, ISO_PARTS) for i in range(ISO_PARTS)]
+    units += [("after-failure", tier, e.name) for e in ENC]
     units += core.interp_axis([("repeat", n) for n in ("b64", "hex", "utf16", "xml", "unesc", "concat+", "rev", "repl", "cmd^1")])
     return units
 
@@ -240,7 +241,8 @@ def payload_facts(payload, k):
     k = min(k, 10)
     key = (payload, k, _OVERRIDE[0] if _OVERRIDE else None)
     if key not in _PAY:
-        t = (_default_md() if _OVERRIDE else md()).scan(payload, k)
+        facts_md = _default_md() if (_OVERRIDE and _OVERRIDE[0].startswith("customise")) else Multidecoder(streams.registry())
+        t = facts_md.scan(payload, k)
         _PAY[key] = (indicators(t), t.flatten())
     return _PAY[key]
 
@@ -375,6 +377,15 @@ def run_unit(unit, rec):
         rec.sample({"innermost": innermost, "height": h, "cases": n})
     elif kind == "sizes":
         run_sizes(rec, unit[1], unit[2])
+    elif kind == "after-failure":
+        n = 0
+        for exc_name in ("RuntimeError", "KeyboardInterrupt"):
+            for rest in [()] + [(e.name,) for e in ENC]:
+                stack = (unit[2],) + rest
+                if build(stack, PAYLOADS[0]) is not None:
+                    run_after_failure(rec, stack, exc_name)
+                    n += 1
+        rec.sample({"family": "scan-aborted-by-an-exception-then-rescanned", "innermost": unit[2], "stacks": n})
     elif kind == "isolation":
         _default_md()
         n_entries = len(_default_md().decoders)
@@ -393,6 +404,43 @@ def run_unit(unit, rec):
             for ei in (0, 1):
                 check(rec, stack, 0, ei, 10, None)
         rec.sample({"repeat": name, "layers": "1..11 at depth limit 10"})
+
+
+class _Bomb:
+    """A user-supplied decoder that raises when it is handed one particular value (the innermost plaintext) while it is armed."""
+
+    def __init__(self, value, exc):
+        self.value, self.exc, self.armed, self.fired = value, exc, True, False
+
+    def __call__(self, data):
+        if self.armed and data == self.value:
+            self.fired = True
+            raise self.exc("user decoder failed")
+        return []
+
+
+def run_after_failure(rec, stack, exc_name):
+    """A scan of the document is aborted by an exception escaping from a user decoder (caught by the caller, as a service loop would); the SAME
+    scanner then scans the same document again and must peel every layer."""
+    global _OVERRIDE
+    blob, layers = build(stack, PAYLOADS[0])
+    pre, suf = EMBED[1]
+    data = pre + blob + suf
+    exc = {"RuntimeError": RuntimeError, "KeyboardInterrupt": KeyboardInterrupt}[exc_name]
+    bomb = _Bomb(layers[-1][1], exc)
+    scanner = Multidecoder(list(streams.registry()) + [bomb])
+    try:
+        scanner.scan(data, 10)
+    except exc:
+        pass
+    bomb.armed = False
+    if not bomb.fired:
+        rec.note("after-failure: the bomb never saw the innermost plaintext (stack not peeled that far)")
+    _OVERRIDE = (f"scan-aborted-by-{exc_name}-then-rescanned", scanner)
+    try:
+        check(rec, stack, 0, 1, 10, None)
+    finally:
+        _OVERRIDE = None
 
 
 def run_isolation(rec, op):
@@ -454,6 +502,9 @@ def run_sizes(rec, tier, name):
 def replay(w, rec):
     if w.get("kind") == "size":
         run_sizes(rec, "thorough" if w["n"] > 16385 else "quick", w["encoder"])
+        return
+    if w.get("kind") == "stack" and str(w.get("after", "")).startswith("scan-aborted-by-"):
+        run_after_failure(rec, tuple(w["stack"]), w["after"].split("-")[3])
         return
     if w.get("kind") == "stack" and w.get("after"):
         global _OVERRIDE
